@@ -2,6 +2,9 @@
 # Runs the pinned suite of /repo (or $1) with the BASELINE.json flags and prints pass/fail counts.
 export GOFLAGS=-mod=mod GOPROXY=off GOSUMDB=off GOTOOLCHAIN=local
 cd "${1:-/repo}" || exit 2
+# csvq's tests share fixed directories under $TMPDIR; use a private one so concurrent runs do not disturb each other
+export TMPDIR=$(mktemp -d /tmp/csvq-baseline.XXXXXX)
+trap 'rm -rf "$TMPDIR"' EXIT
 out=$(go test -mod=mod -json -vet=off -count=1 -timeout 25m ./... 2>&1)
 pass=$(printf '%s\n' "$out" | grep -c '"Action":"pass","Package":"[^"]*","Test":"[^"/]*"')
 fail=$(printf '%s\n' "$out" | grep -c '"Action":"fail","Package":"[^"]*","Test":"[^"/]*"')
